@@ -190,8 +190,13 @@ PROPS["C08"] = dict(
 )
 
 PROPS["C09"] = dict(
-    modules=["contracts.C10_dispatch", "contracts.C08_claims", "contracts.C09_invariants", "contracts.C09_bounded"],
-    decided=["Node.detach, Node.reattach and Trellis.create (new node, re-created node with its former products detached "
+    modules=["contracts.C10_dispatch", "contracts.C08_claims", "contracts.C09_invariants", "contracts.C09_hashes", "contracts.C03_rerun", "contracts.C09_bounded"],
+    decided=["Workflow.update_file_hashes applies the transition table record by record (scoped: requests of two paths; every "
+             "combination of cause, old state and hash-known-ness): refusal exactly outside the table, the table's new state and "
+             "the given hash written, exactly the table's follow-up on the record's own file, writes before follow-ups; "
+             "handle_updated_file / handle_deleted_file mark the producer of an output that is no longer BUILT pending; "
+             "Step.reset_for_rerun detaches what the step created, drops what it announced and outdates its BUILT outputs",
+             "Node.detach, Node.reattach and Trellis.create (new node, re-created node with its former products detached "
              "in a loop) preserve, for every node: detached iff no creator or detached creator; creator rows exist; the "
              "root is its own attached creator and no other node creates itself; a file is no creator; an UNDECLARED "
              "file is detached", "Node.reattach never meets an attached old creator (its ConsistencyError is unreachable "
